@@ -1,0 +1,8 @@
+//go:build verif
+
+package sorter
+
+// VerifChunkCount reports how many sorted runs have been spilled to chunk files.
+func (s *Sorter) VerifChunkCount() int {
+	return len(s.chunks)
+}
